@@ -24,7 +24,7 @@ CLAIMED = {
  "C12": ("exploration", "VMM task, guest-kick task, daemon thread and workers interleaved by the seeded scheduler (random / PCT / sticky, forced preemptions at the worker and control-path hold points); safety oracle evaluated inside handle_event against reply-observed times, liveness oracle at final quiescence; the residual dispatch-after-stop window is a recorded known finding discriminated by wake-up time.", "DESIGN.md 4 C12"),
  "C13": ("exploration", "Seeded table histories (replace/add/remove, overlapping/adjacent/unordered layouts, failing mmaps by real inputs) against a live daemon; reference table vs the memory handle given to the backend, byte visibility both ways through memfds, translation sampled in the queue after SET_VRING_ADDR probes; reconnects after every rejected message.", "DESIGN.md 4 C13"),
  "C14": ("exploration", "Seeded ring-configuration histories against a live daemon; the queue accessors sampled inside handle_event, GET_VRING_BASE values, feature callbacks, used-ring bytes in the latest table's memfd, call-eventfd counters and the flags of a proxy request on a freshly attached backend-request channel are compared with a reference record.", "DESIGN.md 4 C14"),
- "C15": ("exploration", "Live daemon with BitmapMmapRegion: log acceptance rule, independent page-set oracle over the shared log file with guard pages; 2..=16 writer tasks interleaved at the lock / fetch_or sync points, optionally racing a second SET_LOG_BASE; histories mixing SET_LOG_BASE with table changes. The single-writer precision part is a pure-input check riding on the simulator (weakest part).", "DESIGN.md 4 C15"),
+ "C15": ("exploration", "Live daemon with BitmapMmapRegion: log acceptance rule, independent page-set oracle over the shared log file with guard pages; 2..=16 writer tasks interleaved at the lock / fetch_or sync points, optionally racing a second SET_LOG_BASE; histories mixing SET_LOG_BASE with table changes. The single-writer precision part is a pure-input check riding on the simulator (weakest part). The clause \"concurrent writers never lose each other's bits\" is additionally run under a second deterministic scheduler, Miri (seeded preemption at basic-block granularity, -Zmiri-many-seeds), on the real AtomicBitmapMmap with 2..=8 writer threads, because vsim only switches tasks at instrumented sync points.", "DESIGN.md 4 C15, 10.8"),
  "C16": ("exploration", "Shutdown callers, peer behaviours (idle, k requests, stopped or closed at every byte offset of a request, reply pending, malformed request) and the daemon thread interleaved by the seeded scheduler with forced preemptions at the daemon/shutdown hold points; wait() result, peer EOF, restartability, serve() mapping and worker termination; hangs decided by the deadlock detector.", "DESIGN.md 4 C16"),
  "C17": ("exploration", "Mostly a configuration sweep riding on the simulator (all assignments of 1..=4 queues to 1..=3 masks enumerated, random up to 6 queues): reference routing function vs (thread id, event id, ring identity by size) recorded by the backend while workers run concurrently; custom listener ids across the 64-bit range.", "DESIGN.md 4 C17"),
  "C18": ("exploration", "Seeded histories through the real Backend proxy against the real FrontendReqHandler with scripted handler results and errno classes, REPLY_ACK on/off; handler log, proxy return values and ack bytes on the wiretap are compared with the reference ack model.", "DESIGN.md 4 C18"),
@@ -57,6 +57,11 @@ m = {
   "path": "/verif/sim",
   "serves_properties": sorted(CLAIMED.keys()),
   "kind_free_text": "deterministic simulator: token-passing scheduler over real OS threads with sync points at locks, blocking syscalls, thread start/join; simulator-owned sendmsg/recvmsg seam (short I/O, errno injection, wiretap); three decision tapes (workload/schedule/fault) from VERIF_SEED; replay files and delta-debugging minimiser",
+ }, {
+  "name": "miri-c15",
+  "path": "/verif/miri-c15",
+  "serves_properties": ["C15"],
+  "kind_free_text": "Miri (cargo +nightly miri run) as a seeded preemptive scheduler over the real bitmap code of /repo: harness /verif/miri-c15, driver /verif/tools/c15_miri.py; an execution is (case range, Miri seed) and replays exactly; run by ./vcheck C15 after the vsim batch",
  }],
  "checks": [],
  "not_applicable": [],
@@ -74,7 +79,7 @@ for pid in ALL:
             "engine": "vsim",
             "level_claimed": {"category": cat, "text": text, "design_ref": ref},
             "level_note": TRUST,
-            "technique": TECH,
+            "technique": TECH if pid != "C15" else TECH + "; plus seeded preemptive scheduling of the bitmap's atomics under Miri (-Zmiri-many-seeds) for the lost-update clause",
         })
     else:
         m["not_applicable"].append({"property_id": pid, "reason": NA.get(pid, NOT_YET)})
